@@ -425,7 +425,38 @@ func cmdCheck(args []string) int {
 	results := make([]*OblResult, len(ck.jobs))
 	var wg sync.WaitGroup
 	sem := make(chan struct{}, 16)
+	// reachability canaries: per function, stop at the first return shown reachable
+	vac := map[string][]int{}
 	for i, j := range ck.jobs {
+		if j.o.Kind == "vacuity" {
+			vac[j.o.Name] = append(vac[j.o.Name], i)
+		}
+	}
+	for _, idxs := range vac {
+		wg.Add(1)
+		sem <- struct{}{}
+		go func(idxs []int) {
+			defer wg.Done()
+			defer func() { <-sem }()
+			unknowns := 0
+			for _, i := range idxs {
+				results[i] = dis.DischargeVacuity(ck.jobs[i].reg, ck.jobs[i].o)
+				if results[i].Status == "proved" && results[i].Res.Status == "sat" {
+					break
+				}
+				if results[i].Status == "proved" {
+					unknowns++
+					if unknowns >= 3 {
+						break // neither reachable nor unreachable shown: give up (not vacuous)
+					}
+				}
+			}
+		}(idxs)
+	}
+	for i, j := range ck.jobs {
+		if j.o.Kind == "vacuity" {
+			continue
+		}
 		wg.Add(1)
 		sem <- struct{}{}
 		go func(i int, j job) {
